@@ -195,5 +195,5 @@ Definition show_item (it : sitem) : N * (N * list str) * list str :=
   | SStar _ q None _ => (2%N, (0%N, q), [])
   | SStar _ q (Some (XExclude, ns)) _ => (2%N, (1%N, q), ns)
   | SStar _ q (Some (XExcept, ns)) _ => (2%N, (2%N, q), ns)
-  | SNull => (3%N, (3%N, []), [])
+  | SNull => (0%N, (2%N, []), [])      (* the hook shows the NULL literal as an unnamed expression that is not an identifier *)
   end.
